@@ -461,6 +461,11 @@ class Executor(object):
         self.stores = {}
         self.unpatched = []
         self.xdev = False
+        try:
+            import inspect
+            self.store_takes_mtime = len(inspect.signature(cachestore.CacheStore.store).parameters) >= 4
+        except (TypeError, ValueError):
+            self.store_takes_mtime = False
         os.environ.pop('GI_SCANNER_DISABLE_CACHE', None)
         os.environ['XDG_CACHE_HOME'] = self.xdg
         self.saved_argv0 = sys.argv[0]
@@ -662,8 +667,14 @@ class Executor(object):
                 cs = self.store_obj(sver)
                 parse = None
                 if op == 'store':
+                    # what Transformer._parse_include does before it calls store: (observe the mtime of
+                    # the source,) read it; a store that takes that mtime as third argument gets it
+                    m0 = os.stat(self.src_path).st_mtime
                     parse = Parse(self.read_source(), sver, pid)
-                    fn = (lambda cs=cs, parse=parse: cs.store(self.src_path, parse))
+                    if self.store_takes_mtime:
+                        fn = (lambda cs=cs, parse=parse, m0=m0: cs.store(self.src_path, parse, m0))
+                    else:
+                        fn = (lambda cs=cs, parse=parse: cs.store(self.src_path, parse))
                 elif op == 'load':
                     fn = (lambda cs=cs: cs.load(self.src_path))
                 else:
@@ -888,6 +899,11 @@ def oracle(ctx, cnt, case, obs):
         if w.v_start <= r.data <= w.v_end:
             cnt.hit('oracle:fresh-ok')
             continue
+        if r.op == -1 and not init_is_fresh(init):
+            # the schedule STARTS from an entry that already looks newer than its source while holding an older
+            # parse (hand-written corpus states only): no store of this history produced it, nothing to judge
+            cnt.hit('oracle:outside:initial-entry-already-stale')
+            continue
         # classify by what happened on the REAL history
         cls = None
         if st is not None and st.kind == 'store' and st.dump_done is not None:
@@ -909,6 +925,7 @@ def oracle(ctx, cnt, case, obs):
                                                   json.dumps(init)))
         if cls is not None:
             cnt.hit('oracle:stale:' + cls.split(':')[1][:24])
+            ctx.coverage.setdefault('first_replay_per_finding', {}).setdefault(cls, replay)
             ctx.report_failure(cls, what, replay)
         else:
             cnt.hit('oracle:stale:unclassified')
